@@ -11,7 +11,7 @@ use proptest::prelude::*;
 use serde::{Deserialize, Serialize};
 use serde_json::json;
 
-pub const RULE: &str = "generated: header multiset (names in any case, repeated names, values with visible bytes, 0x80-0xFF, tabs, spaces) x signed subset, reference-signed -- the request is plain in every other dimension, so it must be accepted (the reference canonical header block is the only non-trivial ingredient); then ONE edit with the OLD signature: of a signed header (value byte, outer spaces, inner space runs, inserted space, tab for space, add/remove/swap values, value letter case), of header-name case, of the arrival order across different names, or of an unconsulted header (insert, delete, modify, duplicate). Oracle: the edited request is accepted iff the reference model's canonical header block (lower-cased sorted names, trimmed/collapsed values, comma-joined in arrival order) and requirement verdict are unchanged -- i.e. model Accept => crate Ok, model Reject => crate refuses. Non-trivial: the edit was applied to a request the crate accepted before the edit; must-stay-valid and must-become-invalid classes are counted separately; distinct by (request digest, edit).";
+pub const RULE: &str = "generated: header multiset (names in any case, repeated names, values with visible bytes, 0x80-0xFF, tabs, spaces) x signed subset, reference-signed -- the request is plain in every other dimension, so it must be accepted (the reference canonical header block is the only non-trivial ingredient); then ONE edit with the OLD signature: of a signed header (value byte, outer spaces, inner space runs, inserted space, tab for space, add/remove/swap values, value letter case), of header-name case, of the arrival order across different names, or of an unconsulted header (insert, delete, modify, duplicate). A second sub-check does the same on form POSTs whose body the server folds into the query, with Content-Length and Content-Type among the signed headers. Oracle: the edited request is accepted iff the reference model's canonical header block (lower-cased sorted names, trimmed/collapsed values, comma-joined in arrival order) and requirement verdict are unchanged -- i.e. model Accept => crate Ok, model Reject => crate refuses. Non-trivial: the edit was applied to a request the crate accepted before the edit; must-stay-valid and must-become-invalid classes are counted separately; distinct by (request digest, edit).";
 
 #[derive(Clone, Debug, Serialize, Deserialize)]
 pub enum HEdit {
